@@ -280,6 +280,9 @@ func (r *Run) Finish() {
 		}
 		nViol++
 		dir := filepath.Join(VerifDir, "replays", r.ID)
+		if d := os.Getenv("VERIF_SCRATCH_OUT"); d != "" {
+			dir = filepath.Join(d, "replays", r.ID)
+		}
 		os.MkdirAll(dir, 0o755)
 		path := filepath.Join(dir, sanitize(s)+"-"+Hash(s)[:8]+".json")
 		b, _ := json.MarshalIndent(map[string]interface{}{"property": r.ID, "tier": r.Tier, "violation": v}, "", " ")
@@ -348,8 +351,13 @@ func (r *Run) Finish() {
 		"violations":  nViol,
 	}
 	b, _ := json.MarshalIndent(ev, "", " ")
-	os.MkdirAll(filepath.Join(VerifDir, "evidence"), 0o755)
-	if err := os.WriteFile(filepath.Join(VerifDir, "evidence", r.ID+".json"), b, 0o644); err != nil {
+	evDir := filepath.Join(VerifDir, "evidence")
+	if d := os.Getenv("VERIF_SCRATCH_OUT"); d != "" {
+		// seeded-change and mutation runs must not overwrite the evidence of the real tree
+		evDir = filepath.Join(d, "evidence")
+	}
+	os.MkdirAll(evDir, 0o755)
+	if err := os.WriteFile(filepath.Join(evDir, r.ID+".json"), b, 0o644); err != nil {
 		fmt.Fprintf(os.Stderr, "harness error: %v\n", err)
 		os.Exit(2)
 	}
